@@ -253,6 +253,10 @@ func (p *Proxy) handleRawMessage(rawMessage *RawMessage) (*Message, error) {
 			host = host[1 : len(host)-1]
 		}
 		zap.L().Info("receive a message from tcp", zap.String("host", host), zap.Int("port", port))
+		// responses are looked up by the resolved address (see sendMessage): register the same way
+		if ip, ipErr := p.resolver.GetIp(host); ipErr == nil {
+			host = ip
+		}
 		if err == nil {
 			transId, err := msg.GetClientTransaction()
 			if err == nil {
@@ -647,7 +651,7 @@ func (p *Proxy) sendMessage(host string, port int, transport string, msg *Messag
 	t, err := p.findClientTransport(ip, port, transport, transId)
 	if err == nil {
 		if msg.IsFinalResponse() {
-			p.clientTransMgr.RemoveTransport(transport, host, port, transId)
+			p.clientTransMgr.RemoveTransport(transport, ip, port, transId)
 		}
 		t.Send(msg)
 	} else {
